@@ -209,5 +209,15 @@ _SRC_PINS = {
     "C18": ["MainFile"],
     "C19": ["Output", "Oid"],
 }
+# the files that are also translated or have a more specific statement list (whole-file pins)
+for _p, _ms in {
+    "C01": ["Graph", "SizesFile"], "C02": ["Graph", "SizesFile", "CountsFile", "Commit"], "C03": ["Graph", "SizesFile", "Tag"],
+    "C04": ["Graph", "SizesFile", "Tree"], "C05": ["CountsFile", "SizesFile", "BatchHeader"], "C06": ["RefFilter"],
+    "C07": ["RefGroup"], "C08": ["SizesFile"], "C09": ["Graph"], "C10": ["Graph"], "C13": ["GitFile"],
+    "C14": ["IsattyEnabled", "IsattyDisabled"], "C15": ["RefGroup"],
+    "C16": ["Tree", "Commit", "Tag", "ObjHeadIter", "BatchHeader", "Reference"], "C17": ["Graph"],
+    "C18": ["MeterFile", "Graph"], "C19": ["Footnotes"],
+}.items():
+    _SRC_PINS[_p] = _SRC_PINS.get(_p, []) + _ms
 for _p, _ms in _SRC_PINS.items():
     PROPS[_p]["modules"] = PROPS[_p]["modules"] + ["GitSizer.Props.Pins.Src." + _m for _m in _ms]
